@@ -130,6 +130,51 @@ mod verif_bounded {
         assert!(fails == 0, "{} failures", fails);
     }
 
+    /// destinations reached through symbolic links: the backups of a name live beside that *name* (the rename acts on the name as given),
+    /// wherever a link in the last component points; a linked parent directory is the same directory
+    #[test]
+    fn bounded_symlinked_destinations() {
+        let universe: [u64; 3] = [1, 2, 10];
+        let mut fails = 0;
+        let mut cases = 0;
+        for mask in 0u32..(1u32 << universe.len()) {
+            let dir = tempfile::TempDir::new().unwrap();
+            let d = dir.path().join("d");
+            let real = dir.path().join("real");
+            std::fs::create_dir(&d).unwrap();
+            std::fs::create_dir(&real).unwrap();
+            std::os::unix::fs::symlink(&d, dir.path().join("dlink")).unwrap();
+            File::create(real.join("cfg")).unwrap();
+            File::create(d.join("plain")).unwrap();
+            std::os::unix::fs::symlink("../real/cfg", d.join("far")).unwrap();       // last component links into another directory
+            std::os::unix::fs::symlink("plain", d.join("near")).unwrap();            // ... into the same directory
+            // a decoy: backups of the referent's name in the *other* directory must not count
+            File::create(real.join("cfg.~7~")).unwrap();
+            for (dest, name) in [(d.join("far"), "far"), (d.join("near"), "near"), (dir.path().join("dlink").join("plain"), "plain")] {
+                let mut maxn = 0u64;
+                for (i, n) in universe.iter().enumerate() {
+                    let p = d.join(format!("{}.~{}~", name, n));
+                    if mask & (1 << i) != 0 { File::create(&p).unwrap(); if *n > maxn { maxn = *n; } } else { let _ = std::fs::remove_file(&p); }
+                }
+                cases += 1;
+                let base = dest.clone();
+                let r = std::panic::catch_unwind(move || (has_backup(&base), next_backup_num(&base), get_backup_path(&base)));
+                let ok = match r {
+                    Ok((Ok(hb), Ok(n), Ok(bp))) => hb == (mask != 0) && n == maxn + 1 && !bp.exists()
+                        && bp.file_name().map(|x| x.to_string_lossy().into_owned()) == Some(format!("{}.~{}~", name, maxn + 1))
+                        && bp.parent() == dest.parent(),
+                    _ => false,
+                };
+                if !ok {
+                    fails += 1;
+                    if fails <= 5 { report("symlinked_destinations", format!("destination {:?} (far -> ../real/cfg, near -> plain, dlink -> d), existing-mask={:#b} of (1,2,10) beside the name: has_backup / next number / chosen path wrong", dest.strip_prefix(dir.path()).unwrap(), mask)); }
+                }
+            }
+        }
+        println!("VERIF-BOUNDED-CASES {}", cases);
+        assert!(fails == 0, "{} failures", fails);
+    }
+
     /// the ends of the number range: every subset of {0, 1, u64::MAX - 1, u64::MAX} as existing backups.  The next number must exceed every
     /// existing one and name a path that does not exist; when no such number exists the only acceptable answer is an error (no wrap-around,
     /// no saturation onto an existing backup, no arithmetic panic)
@@ -199,11 +244,11 @@ def backup_bounded():
         ms = re.findall(r'VERIF-BOUNDED-CASES (\d+)', out)
         ran = re.search(r'test result: (\w+)\. (\d+) passed; (\d+) failed', out)
         res = {
-            'ok': p.returncode == 0 and not fails and ran is not None and ran.group(3) == '0' and ran.group(2) == '4',
+            'ok': p.returncode == 0 and not fails and ran is not None and ran.group(3) == '0' and ran.group(2) == '5',
             'built': ran is not None,
             'failures': fails[:10],
             'cases': sum(int(x) for x in ms) + 8 * 2010 + 8,
-            'bound': 'is_num_backup: 8 names (incl. non-UTF-8, prefix-like, one with a newline) x N in 1..=2000 plus 10 large N, 8 non-backup names; next number at the ends of the range: 2 names x all subsets of {0, 1, u64::MAX-1, u64::MAX}; 4 spellings of the destination (bare, ./, sub/, sub/../) x all subsets of {1,2,10}; '
+            'bound': 'is_num_backup: 8 names (incl. non-UTF-8, prefix-like, one with a newline) x N in 1..=2000 plus 10 large N, 8 non-backup names; next number at the ends of the range: 2 names x all subsets of {0, 1, u64::MAX-1, u64::MAX}; 4 spellings of the destination (bare, ./, sub/, sub/../) x all subsets of {1,2,10}; 3 destinations reached through symbolic links (last component into another directory, into the same directory, a linked parent) x all subsets of {1,2,10}; '
                      'next_backup_num/has_backup/get_backup_path: 2 names (one non-UTF-8) x all 1024 subsets, a name with a newline x 29 subsets, of existing numbers {1,2,9,10,11,99,100,101,205,1000}',
             'wall_s': round(time.time() - t0, 1),
             'tail': '' if ran is not None else out[-1500:],
